@@ -4,7 +4,7 @@ H = "vf.harness.walk"
 FUNCS = ["TraceVisitor.visit_BlockStatement", "TraceVisitor.visit_LoopStatement", "OutputParser.process_trace", "parse_jaqal_output_list",
          "IndependentSubcircuitsEmulatorWalker.process_trace", "DiscoverSubcircuits.visit_*", "ReadoutSubcircuit.accept_readout", "run_jaqal_circuit"]
 META = {
-    "bounds": {"quick": "4 nesting shapes (sections in nested loops to depth 3, macro-wrapped sections, empty loops), loop counts 0..2 / 0..2 / 0..1 (literal, let-valued and "
+    "bounds": {"quick": "5 nesting shapes (sections in nested loops to depth 3, macro-wrapped sections, empty loops), loop counts 0..2 / 0..2 / 0..1 (literal, let-valued and "
                         "overridden), mixed spelling, fixed hardware outputs given as int and as bit string",
                "thorough": "loop counts 0..3, all 8 spellings of the first three sections"},
     "assumptions": ["numpy.random.choice is replaced by a stub that returns an arbitrary index constrained by its documented contract (0 <= k < n, p[k] > 0)",
@@ -22,7 +22,7 @@ def spelling_jobs(tier):
     q = tier == "quick"
     nmax = 2
     out = []
-    for shape in range(4):
+    for shape in range(5):
         for spell in ((21,) if q else (63, 21, 42)):
             for lets in (False, True):
                 out.append(CH(name=f"c09_spelling_s{shape}_sp{spell}_{'let' if lets else 'lit'}", base="c09_spelling", func=f"{H}:c09_spelling",
@@ -37,7 +37,7 @@ def jobs(tier):
     q = tier == "quick"
     nmax = 2
     out = []
-    for shape in range(4):
+    for shape in range(5):
         for spell in ((21,) if q else (0, 63, 21)):
             for lets in (False, True):
                 out.append(CH(name=f"c08_outputs_s{shape}_sp{spell}_{'let' if lets else 'lit'}", base="c08_outputs", func=f"{H}:c08_outputs",
